@@ -8,6 +8,7 @@ import (
 	"math"
 	"reflect"
 	"sort"
+	"strings"
 	"testing"
 	"time"
 
@@ -210,6 +211,17 @@ func TestEqualsAgreesWithReference(t *testing.T) {
 			o, kind = s, "same"
 		}
 		a, b := s.Msg(), o.Msg()
+		if (kind == "payload-append" || kind == "payload-truncate" || kind == "same") && rapid.Bool().Draw(t, "payloadsAreWindowsOfOneBuffer") {
+			// the two payloads may be slices of the same backing array (a copy truncated in place, an append into spare
+			// capacity, two windows of one read buffer): what counts is the bytes
+			long, short := a, b
+			if len(b.Payload) > len(a.Payload) {
+				long, short = b, a
+			}
+			if len(short.Payload) > 0 && bytes.HasPrefix(long.Payload, short.Payload) {
+				short.Payload = long.Payload[:len(short.Payload)]
+			}
+		}
 		if rapid.Bool().Draw(t, "nilMetaWhenEmpty") {
 			if len(a.Metadata) == 0 {
 				a.Metadata = nil
@@ -670,6 +682,10 @@ func TestReplyRoundTrip(t *testing.T) {
 		var errText *string
 		if rapid.Bool().Draw(t, "hasErr") {
 			e := lib.GenUTF8().Draw(t, "errText")
+			// error texts come in all lengths (joined validation errors, stack traces): a few long ones
+			if n := rapid.SampledFrom([]int{0, 0, 0, 0, 1023, 1024, 1025, 5000}).Draw(t, "errTextPaddedTo"); n > len(e) {
+				e += strings.Repeat(rapid.SampledFrom([]string{"x", "é", "% "}).Draw(t, "pad"), n-len(e))
+			}
 			errText = &e
 		}
 		kind := rapid.IntRange(0, 3).Draw(t, "resultType")
